@@ -488,7 +488,8 @@ func c37exec(t *testing.T, r *vk.Run, fam string, k, depth int, noUnstall bool, 
 			id := fam + "|trace:" + ch.TraceString()
 			// signature: the event that crossed the line + reader state (not the family: the same
 			// root cause shows in every family); the execution ends at its first violation
-			if c37judge(r, id, "order:"+c37class(ev.name), rd, limit, emax, o, func() string { return fmt.Sprintf("family %s (connection state %s, preload limit-%d), after events %v, no clock advance", fam, state, k, hist)
+			if c37judge(r, id, "order:"+c37class(ev.name), rd, limit, emax, o, func() string {
+				return fmt.Sprintf("family %s (connection state %s, preload limit-%d), after events %v, no clock advance", fam, state, k, hist)
 			}) {
 				violated = true
 				r.Outcome("order:" + fam + ":violation")
@@ -631,7 +632,13 @@ func TestVerifC37(t *testing.T) {
 	var fams []fam
 	switch {
 	case r.Replaying():
-		fams = append(append(fams, quickF[1:]...), thorF...)
+		seen := map[string]bool{}
+		for _, f := range append(append([]fam{}, thorF...), quickF...) {
+			if !seen[f.name] {
+				seen[f.name] = true
+				fams = append(fams, f)
+			}
+		}
 	case r.Thorough():
 		fams = thorF
 	default:
